@@ -501,6 +501,29 @@ def _getters(ctx) -> None:
            f"{[nun(x.value) for x in r]}", dm.rel)
 
 
+def _local_time_cases(deep: bool):
+    """timestamps on both sides of year boundaries, leap days, the epoch, negative times, utc offsets of both signs; the expected
+    broken-down time by the standard library's datetime arithmetic"""
+    import datetime as _dt
+    import math
+    EP = _dt.datetime(1970, 1, 1)
+
+    def lt_want(t, off, us):
+        w = EP + _dt.timedelta(seconds=math.floor(t) + off)
+        return (w.year, w.month, w.day, w.hour, w.minute, w.second, us)
+    lt_cases = []
+    for y in (list(range(1601, 2400)) if deep else list(range(1601, 2400, 13)) + [1969, 1970, 1971, 1999, 2000, 2001, 2004, 2100, 2101, 1900, 1901, 2399]):
+        t0 = int((_dt.datetime(y, 1, 1) - EP).total_seconds())
+        for dlt in (-1, 0, 1, 86399, 86400, 59 * 86400, 60 * 86400, 365 * 86400 - 1, 365 * 86400):
+            lt_cases.append((t0 + dlt, 0, 5))
+        lt_cases += [(t0, 3600, 0), (t0, -3600, 999999), (t0 - 1, 19800, 1), (t0 + 86400 * 59 + 43200, -34200, 2)]
+    for y in (1, 2, 400, 401, 1199, 1200, 1201, 1600, 2400, 2401, 2800, 5000, 9999):      # the 400-year chunks far from the epoch, both directions
+        t0 = int((_dt.datetime(y, 1, 1) - EP).total_seconds())
+        lt_cases += [(t0, 0, 0), (t0 + 86400 * 200 + 3661, 0, 1), (t0 + 1, 3600, 2)] + ([(t0 - 1, 0, 3)] if y > 1 else [])
+    lt_cases += [(0, 0, 0), (-1, 0, 0), (1, 0, 0), (951782400, 0, 0), (951868799, 0, 7), (0.5, 0, 500000), (-0.5, 0, 500000), (4102444800, 0, 0), (-11644473600, 0, 0)]
+    return lt_cases, lt_want
+
+
 def _prim_tabulate(ctx) -> None:
     """PRIM.tabulated: the pure-Python calendar primitives of _helpers.py run by the checker's interpreter against the standard
     library: is_leap / days_in_year for every year 1..2800 and 9999 (calendar.isleap), is_long_year for the same years
@@ -548,18 +571,7 @@ def _prim_tabulate(ctx) -> None:
     if deep:
         wd_cases += [(y, mo, 1) for y in range(1, 10000) for mo in (1, 2, 3, 12)]
     tab("week_day", wd_cases, lambda y, mo, d: _dt.date(y, mo, d).isoweekday(), lambda a: f"week_day{a}")
-    EP = _dt.datetime(1970, 1, 1)
-
-    def lt_want(t, off, us):
-        w = EP + _dt.timedelta(seconds=math.floor(t) + off)
-        return (w.year, w.month, w.day, w.hour, w.minute, w.second, us)
-    lt_cases = []
-    for y in (list(range(1601, 2400)) if deep else list(range(1601, 2400, 13)) + [1969, 1970, 1971, 1999, 2000, 2001, 2004, 2100, 2101, 1900, 1901, 2399]):
-        t0 = int((_dt.datetime(y, 1, 1) - EP).total_seconds())
-        for dlt in (-1, 0, 1, 86399, 86400, 59 * 86400, 60 * 86400, 365 * 86400 - 1, 365 * 86400):
-            lt_cases.append((t0 + dlt, 0, 5))
-        lt_cases += [(t0, 3600, 0), (t0, -3600, 999999), (t0 - 1, 19800, 1), (t0 + 86400 * 59 + 43200, -34200, 2)]
-    lt_cases += [(0, 0, 0), (-1, 0, 0), (1, 0, 0), (951782400, 0, 0), (951868799, 0, 7), (0.5, 0, 500000), (-0.5, 0, 500000), (4102444800, 0, 0), (-11644473600, 0, 0)]
+    lt_cases, lt_want = _local_time_cases(deep)
     tab("local_time", lt_cases, lt_want, lambda a: f"local_time{a}")
 
 
@@ -652,6 +664,30 @@ def _rs_prim_tabulate(ctx, mir) -> None:
         if not bad:
             ctx.established(("SIBLING", "FORMULA"), f"py-vs-rs:{short}", "RSPRIM.tabulated + PRIM.tabulated")
             ctx.established(("SIBLING", "FORMULA"), f"rs:{short}", "RSPRIM.tabulated")
+    # local_time has loops: its MIR is evaluated block by block (pvs/mirexec.py) on the timestamps of PRIM.tabulated
+    from .. import mirexec
+    cases, want = _local_time_cases(deep)
+    if not deep:
+        cases = cases[:-60:4] + cases[-60:]          # quick tier: a quarter of the year-boundary cases, all the special ones
+    bad, n = [], 0
+    try:
+        f = mir.fn("helpers::local_time")
+        for t, off, us in cases:
+            n += 1
+            try:
+                got = mirexec.Machine(mir, sf).run(f, [float(t), off, us])
+            except mirexec.Panic as e:
+                bad.append(f"local_time({t}, {off}, {us}) panics ({e})")
+                continue
+            if tuple(got) != tuple(want(t, off, us)):
+                bad.append(f"local_time({t}, {off}, {us}) = {tuple(got)} (expected {tuple(want(t, off, us))})")
+    except (core.Unsupported, core.AnchorMissing, KeyError, TypeError, AttributeError, IndexError, ValueError, ZeroDivisionError, RecursionError) as e:
+        ctx.unverified("RSPRIM.tabulated", "rs:local_time", f"outside the MIR evaluator: {type(e).__name__}: {str(e)[:160]}", rel)
+        return
+    ctx.ob("RSPRIM.tabulated", "rs:local_time", not bad, f"{n} timestamps evaluated on the MIR of the compiled local_time: " + (f"wrong: {bad[:3]}" if bad else "equal to the standard library's datetime arithmetic on every input"), rel)
+    if not bad:
+        ctx.established(("SIBLING.local_time", "CUMSEARCH.backward"), "py-vs-rs:local_time", "RSPRIM.tabulated + PRIM.tabulated")
+        ctx.established(("SIBLING.local_time", "CUMSEARCH.backward"), "rs:local_time", "RSPRIM.tabulated")
 
 
 def run(ctx) -> None:
